@@ -1,7 +1,8 @@
 (* C17 — rolling-window counters count the recent window, no more and no less; ratio counters on top.
    Model: Model/Counter.v (memmetrics/counter.go + ratio.go as they are now: bucket index
    (t.Truncate(r).UnixNano() / r) % N, Go's Truncate counted from the zero time, Reset storing the zero time).
-   Histories are arbitrary lists of Inc v / Count / Tick d / Reset / IncA v / IncB v / Ratio / RReset from a
+   Histories are arbitrary lists of Inc v / Count / Tick d / Reset / IncA v / IncB v / Ratio / RReset /
+   Append v (of a freshly filled counter) / AppendClone (of the counter's own Clone) from a
    fresh counter and a fresh ratio counter; [gexec] additionally carries, per counter, the ghost log of the
    (instant, amount) of every increment since that counter's last Reset ([g0] for the RollingCounter,
    [ga]/[gb] for the two halves of the RatioCounter).  Hypotheses on the configuration: N >= 1 buckets,
@@ -88,12 +89,34 @@ Proof. intros N r start ops s h HN Hr Hs Ht Hrun A B.
   pose proof (reach_window N r start ops s h HN Hr Hs Ht Hrun Hnn (ca s) (ga h) ltac:(right; left; reflexivity)) as WA.
   pose proof (reach_window N r start ops s h HN Hr Hs Ht Hrun Hnn (cb s) (gb h) ltac:(right; right; left; reflexivity)) as WB.
   rewrite EA in WA. rewrite EB in WB. split; [exact WA|]. split; [exact WB|]. intros ZA ZB.
-  assert (Hg : GNonneg h). { eapply GNonneg_gexec; [exact Hnn| |exact Hrun]. repeat split; apply nonneg_nil. }
+  assert (Hg : GNonneg h).
+  { eapply (GNonneg_gexec r N); [lia|lia|exact Ht|exact Hnn| | |exact Hrun]; [apply SInv_init; lia|repeat split; apply nonneg_nil]. }
   destruct Hg as (_ & Ga & Gb).
   pose proof (sumif_nonneg (fun e => now s - (N - 1) * r <=? fst e) (ga h) Ga).
   pose proof (sumif_nonneg (fun e => now s - (N - 1) * r <=? fst e) (gb h) Gb).
   unfold since_incl in *. rewrite ER. apply ratio_q_empty. lia. Qed.
 Print Assumptions C17_ratio.
+
+(* Append is an increment made now: appending a counter that was just filled with v adds exactly v (the receiver ends
+   up as after Inc v, stale buckets zeroed first), and appending the counter's own Clone adds exactly its current window
+   count; the ghost log of [gexec] records those amounts, so C17_inv, C17_count_exact and C17_window above already
+   range over histories with Append and Clone anywhere *)
+Theorem C17_append : forall N r start ops s h,
+  1 <= N -> 1 <= r -> N * r <= start -> ticks_nonneg ops ->
+  gexec r (init N start) gnil ops = (s, h) ->
+  (forall v, appended r s (Append v) = v /\ c0 (fst (step r s (Append v))) = c0 (fst (step r s (Inc v)))) /\
+  appended r s AppendClone = sumif (inwin r N (sl r (now s))) (g0 h) /\
+  (forall cnt cbk, snd (step r s Count) = [cnt; cbk] -> appended r s AppendClone = cnt).
+Proof. intros N r start ops s h HN Hr Hs Ht Hrun.
+  pose proof (reach_SInv N r start ops s h HN Hr Hs Ht Hrun) as (Hnw & H0 & _).
+  assert (EC : appended r s AppendClone = sumif (inwin r N (sl r (now s))) (g0 h))
+    by (cbn [appended]; apply appended_clone; try lia; exact H0).
+  split; [|split; [exact EC|]].
+  - intros v. assert (E : appended r s (Append v) = v) by (cbn [appended]; apply (appended_fresh r N); try lia; apply H0).
+    split; [exact E|]. cbn [step fst c0]. unfold append. cbn [appended] in E. rewrite E. reflexivity.
+  - intros cnt cbk E. rewrite reach_count_obs in E. inv E. rewrite EC. symmetry.
+    apply (reach_count_exact N r start ops s h HN Hr Hs Ht Hrun). left; reflexivity. Qed.
+Print Assumptions C17_append.
 
 (* old events always age out: after idling a full window N*r every count is 0 and the ratio is 0 *)
 Theorem C17_ages_out : forall N r start ops s h d,
@@ -143,3 +166,9 @@ Proof. cbv zeta. split; [lia|]. split; [lia|]. split; [lia|]. split; [|split].
     | H : False |- _ => destruct H
     end.
   - eexists. eexists. repeat (refine (conj _ _); [vm_compute; reflexivity|]). vm_compute; reflexivity. Qed.
+
+(* Append after an idle gap longer than the window (N = 3, r = 1 s): the stale 5 is gone, only the appended 1 counts;
+   appending the counter's own clone then doubles it *)
+Example C17_append_example :
+  run [3; 1000000000; 1600000000123456789] [[0;5];[2;4000000000];[8;1];[1];[9];[1]] = [[];[];[];[1;2];[];[2;2]].
+Proof. vm_compute. reflexivity. Qed.
